@@ -67,7 +67,7 @@ impl CandidateUncles {
         self.len() == 0
     }
 
-    #[cfg(test)]
+    #[cfg(any(test, feature = "verif-hooks"))]
     /// Removing all values.
     pub fn clear(&mut self) {
         self.map.clear();
